@@ -50,7 +50,7 @@ PROPS = {
         assumptions=['only valid arguments are generated (matching sizes, existing names, equal strides/types for shared properties)',
                      'record comparison is by multiset of whole records: physical order is only checked through the alignment invariant',
                      'resize() is used for shrinking only (growth leaves new slots unspecified by the API)'],
-        quick=dict(runs=30000, budget_s=50),
+        quick=dict(runs=120000, budget_s=60),
         thorough=dict(runs=3000000, budget_s=1200),
     ),
 }
